@@ -64,12 +64,23 @@ def errors_by_file(parsed):
     return out
 
 
-def run_shell(argv, timeout=300):
+def _scratch_cwd(argv):
+    """A crashing javac drops `javac.<time>.args` into its working directory:
+    run it inside the scratch directory its `-d` option points into."""
+    argv = list(argv)
+    if '-d' in argv[:-1]:
+        d = os.path.dirname(argv[argv.index('-d') + 1].rstrip('/'))
+        if os.path.isabs(d) and os.path.isdir(d):
+            return d
+    return None
+
+
+def run_shell(argv, timeout=300, cwd=None):
     """Run a command line the way hephaestus.run_command does on POSIX:
     arguments joined by blanks, through the shell (so `*` is expanded),
     stderr folded into stdout.  -> (returncode, text)."""
     p = subprocess.run(' '.join(argv), shell=True, stdout=subprocess.PIPE, stderr=subprocess.STDOUT,
-                       timeout=timeout, env=dict(os.environ))
+                       timeout=timeout, env=dict(os.environ), cwd=cwd or _scratch_cwd(argv))
     return p.returncode, p.stdout.decode('utf-8', 'replace')
 
 
@@ -109,7 +120,7 @@ def compile_each_alone(flags, paths, workdir, timeout=600):
             f.write(_DRIVER_SRC)
         p = subprocess.run(['java', '-XX:TieredStopAtLevel=1', '-XX:+UseSerialGC', drv] + list(flags) +
                            ['--', marker] + list(paths), stdout=subprocess.PIPE, stderr=subprocess.STDOUT,
-                           timeout=timeout)
+                           timeout=timeout, cwd=workdir)
         text = p.stdout.decode('utf-8', 'replace')
         cur, buf = None, []
         for ln in text.split('\n'):
@@ -133,5 +144,5 @@ def compile_each_alone(flags, paths, workdir, timeout=600):
             pass
     if not res:
         for path in paths:
-            res[path] = run_shell(['javac'] + list(flags) + [path], timeout=timeout)
+            res[path] = run_shell(['javac'] + list(flags) + [path], timeout=timeout, cwd=workdir)
     return res
